@@ -24,6 +24,13 @@ source text only and byte-stable on an unchanged tree).  One row per
   so a store made before it is persisted even when the check then fails);
 * `kind`             – the role docs/users.md assigns to the state the route
   changes.  HAND-WRITTEN, TRUSTED: `DOC_KIND` below.
+* `prunes`           – the method (or a helper it reaches) calls `prune_database`, the
+  only code that deletes CSRF replay records.
+
+Also generated: `pruneSites` – every call of `prune_database` anywhere under
+dashlive/ with its enclosing function, its `all_csrf` argument and whether it is
+the server start (`create_app`).  A new call site shows up as a broken obligation
+(`prune_only_at_server_start`, `no_handler_prunes`).
 
 `harness/c15_routes.py` cross-checks the table at run time against
 `app.url_map`, `view_class.decorators`, the `__wrapped__` chains and the closure
@@ -550,6 +557,9 @@ class Scanner:
                     return
             # model methods, by name
             if isinstance(f, ast.Attribute):
+                if f.attr == "prune_database":
+                    ev.append(("prune", where))
+                    return
                 if f.attr in BOOKKEEPING_CALLS:
                     return
                 if f.attr in self.model_writers:
@@ -627,6 +637,7 @@ class Scanner:
                 "async": bool(is_async),
                 "classDecorators": cdecs, "methodDecorators": mdecs, "bodyGuards": body,
                 "lateCsrf": late, "mutates": mutates, "csrfFirst": csrf_first, "kind": kind,
+                "prunes": any(e[0] == "prune" for e in ev),
                 "evidence": evidence[:4]}
 
 
@@ -676,6 +687,38 @@ def ui_handler(tree: ast.Module) -> str:
     raise ValueError("UiRoute handler not found")
 
 
+def scan_prune_sites(root: Path) -> list[dict]:
+    """every call of `prune_database` under dashlive/ (the definition itself excluded)"""
+    sites = []
+    base = root / "dashlive"
+    for p in sorted(base.rglob("*.py")):
+        try:
+            tree = ast.parse(p.read_text())
+        except SyntaxError:
+            continue
+
+        def walk(node, qual):
+            for ch in ast.iter_child_nodes(node):
+                q = qual
+                if isinstance(ch, (ast.FunctionDef, ast.AsyncFunctionDef, ast.ClassDef)):
+                    q = qual + [ch.name]
+                if isinstance(ch, ast.Call):
+                    f = ch.func
+                    name = f.attr if isinstance(f, ast.Attribute) else (f.id if isinstance(f, ast.Name) else None)
+                    if name == "prune_database":
+                        kw = {k.arg: k.value for k in ch.keywords}
+                        a = kw.get("all_csrf", ch.args[0] if ch.args else None)
+                        allc = a.value if isinstance(a, ast.Constant) else None
+                        rel = str(p.relative_to(base))
+                        site = f"{rel}:{'.'.join(qual) or '<module>'}"
+                        sites.append({"site": site, "allCsrf": bool(allc) if allc is not None else False,
+                                      "allCsrfKnown": allc is not None,
+                                      "startup": rel == "server/app.py" and qual[:1] == ["create_app"]})
+                walk(ch, q)
+        walk(tree, [])
+    return sorted(sites, key=lambda d: d["site"])
+
+
 def build(root: Path | None = None) -> dict:
     root = root or repo()
     sc = Scanner(root)
@@ -686,6 +729,7 @@ def build(root: Path | None = None) -> dict:
             if r:
                 rows.append(r)
     return {"rows": rows, "services": sorted(sc.services - {"?"}), "problems": sorted(set(sc.problems)),
+            "pruneSites": scan_prune_sites(root),
             "model_writers": sorted(sc.model_writers), "model_classes": sorted(sc.model_classes)}
 
 
@@ -763,13 +807,19 @@ def render(t: dict) -> str:
             f"    classDecorators := {lguards(r['classDecorators'])}, methodDecorators := {lguards(r['methodDecorators'])}, "
             f"bodyGuards := {lguards(r['bodyGuards'])},")
         lines.append(
-            f"    mutates := {lbool(r['mutates'])}, csrfFirst := {lbool(r['csrfFirst'])}, kind := .{r['kind']} }}{sep}")
+            f"    mutates := {lbool(r['mutates'])}, csrfFirst := {lbool(r['csrfFirst'])}, kind := .{r['kind']}"
+            + (", prunes := true" if r["prunes"] else "") + f" }}{sep}")
         if r["evidence"]:
             lines.append("    -- writes: " + "; ".join(r["evidence"]).replace("\n", " "))
     lines.append("]")
     lines.append("")
     lines.append("/-- every CSRF service name that occurs in a check or in a token-generating call -/")
     lines.append("def services : List String := [" + ", ".join(lstr(s) for s in t["services"]) + "]")
+    lines.append("")
+    lines.append("/-- every call of `prune_database` (the only code that deletes CSRF replay records) under dashlive/ -/")
+    lines.append("def pruneSites : List PruneSite := [" + ", ".join(
+        f"{{ site := {lstr(p['site'])}, allCsrf := {lbool(p['allCsrf'])}, startup := {lbool(p['startup'])} }}"
+        for p in t["pruneSites"]) + "]")
     lines.append("")
     lines.append("/-- things the translator could not follow (must be empty) -/")
     lines.append("def problems : List String := [" + ", ".join(lstr(s) for s in t["problems"]) + "]")
